@@ -29,7 +29,7 @@ func init() {
 		},
 		Run:            c16Run,
 		Floor:          func(tier string) int { return 800 },
-		Rule:           "(also Gemm with the batch as the transposed second operand - one column per sample - and, on one loaded model, the permuted batch written into the input tensor objects of the first Run) models built from per-sample operators along a tracked batch axis: (A) dense chains on [N,F] (Gemm/MatMul against weights, elementwise with per-feature weights, one column per sample stretched against a weight vector whose length may coincide with the batch size, Relu/Tanh/Sigmoid, PRelu, Softmax/LogSoftmax over the feature axis, Scaler, LinearRegressor, Concat/Gather/Slice on the feature axis, Flatten/Unsqueeze/Squeeze/Reshape that keep the batch axis), (B) Conv on [N,C,H,W] followed by Flatten and Gemm, (D) multi-head MatMul X[N,heads,m,k] x W[heads,k,n] (weights broadcast over the batch axis), (C) RNN/GRU/LSTM on [S,N,I] (batch on axis 1) followed by Squeeze and elementwise operators; plus the sample models mlp, gru, scaler, ndm. For batch sizes 2..6 (2 % of the cases 17..65, 0.2 % 257..513) the real code is its own reference: Run(batch)[i] ~ Run(sample i alone), Run(permuted batch) ~ permuted Run(batch), Run(sub-selection) ~ the selected rows; in half of the cases the batch and its parts run on ONE loaded model (alternating batch sizes), otherwise on freshly loaded models (tolerance 2e-4 abs+rel: BLAS blocking may differ with the batch size; a row-mixing defect changes results by O(1)); success/failure must agree between the batch and its parts. Non-trivial = batch >= 2 with rows that differ; distinct = (model structure, batch size, relation).",
+		Rule:           "(batches may hold samples of NaN / infinities / huge values / zeros throughout, models one non-finite weight - NaN results compare equal; a per-sample statistic (N,1) is combined with the sample it came from) (also Gemm with the batch as the transposed second operand - one column per sample - and, on one loaded model, the permuted batch written into the input tensor objects of the first Run) models built from per-sample operators along a tracked batch axis: (A) dense chains on [N,F] (Gemm/MatMul against weights, elementwise with per-feature weights, one column per sample stretched against a weight vector whose length may coincide with the batch size, Relu/Tanh/Sigmoid, PRelu, Softmax/LogSoftmax over the feature axis, Scaler, LinearRegressor, Concat/Gather/Slice on the feature axis, Flatten/Unsqueeze/Squeeze/Reshape that keep the batch axis), (B) Conv on [N,C,H,W] followed by Flatten and Gemm, (D) multi-head MatMul X[N,heads,m,k] x W[heads,k,n] (weights broadcast over the batch axis), (C) RNN/GRU/LSTM on [S,N,I] (batch on axis 1) followed by Squeeze and elementwise operators; plus the sample models mlp, gru, scaler, ndm. For batch sizes 2..6 (2 % of the cases 17..65, 0.2 % 257..513) the real code is its own reference: Run(batch)[i] ~ Run(sample i alone), Run(permuted batch) ~ permuted Run(batch), Run(sub-selection) ~ the selected rows; in half of the cases the batch and its parts run on ONE loaded model (alternating batch sizes), otherwise on freshly loaded models (tolerance 2e-4 abs+rel: BLAS blocking may differ with the batch size; a row-mixing defect changes results by O(1)); success/failure must agree between the batch and its parts. Non-trivial = batch >= 2 with rows that differ; distinct = (model structure, batch size, relation).",
 		RaceInThorough: true,
 		Technique:      "runtime monitoring: metamorphic relations on the real code (batch decomposition, permutation, sub-selection)",
 		Assumptions:    []string{"the generator only emits operators that act per sample along the tracked batch axis"},
